@@ -182,6 +182,32 @@ func main() {
 				return x
 			}})
 	}
+	// live-group clause: after a resharing only members of the new group count. A network of real handlers goes
+	// through a transition to a smaller group; afterwards every member is handed partials made with shares of the
+	// previous group and partials that lie on the NEW polynomial at the index the new group dropped.
+	{
+		k := bnet.NewKeys(crypto.DefaultSchemeID, 4, 3, 3*time.Second, genesis)
+		var rs []*bnet.ReshareSpec
+		for _, keep := range [][]int{{0, 1, 2}, {1, 2, 3}, {0, 1, 2, 3}} {
+			t2 := 3
+			if len(keep) == 3 {
+				t2 = 2
+			}
+			rs = append(rs, &bnet.ReshareSpec{Name: fmt.Sprintf("keep=%v", keep), New: k.Reshare(len(keep), t2, keep), Keep: keep, LearnAtRound: 3, TransitionRound: 5, OldSharePartials: true})
+		}
+		sc := &bnet.Scenario{Keys: k, Backends: []string{"memdb", "memdb", "memdb", "memdb"}, Rounds: 9, Reshares: rs}
+		runR := func(devs []vrt.Dev, labels bool) *explore.Exec {
+			r := sc.Run(devs, labels)
+			x := sc.JudgeSafety(r, "c03/live-group/safety")
+			sc.JudgeReshare(r, x, "c03/live-group")
+			if r.Net != nil {
+				r.Net.Close()
+			}
+			return x
+		}
+		jobs = append(jobs, vlib.E1Job{Name: "c03-live-group/pedersen-bls-chained/n=4/t=3/reshare-to-smaller-groups", Bound: 0,
+			Run: func(devs []vrt.Dev) *explore.Exec { return runR(devs, false) }, Labeled: func(devs []vrt.Dev) *explore.Exec { return runR(devs, true) }})
+	}
 	c.Count("packet_sequences", int64(total))
 	c.E1Batch(jobs, time.Until(c.DeadlineIn(100*time.Second, 25*time.Minute)))
 	c.Assume("V is member 0; the other members are scripted (their addresses are used as packet sources); sync is unavailable to V in these runs, so every stored beacon comes from aggregation",
